@@ -139,6 +139,33 @@ pub fn add_padding_files(rng: &mut Rng, v: &mut Variant) {
     }
 }
 
+/// Comments holding characters of the Windows-1252 repertoire in front of the code (before each
+/// declaration or at the start of its second line): verdicts and declaration-relative byte offsets
+/// are unaffected, but what a wrongly chosen decoder makes of the file is not.
+pub fn decorate_lightly(rng: &mut Rng, world: &mut World) {
+    for d in world.decls.iter_mut() {
+        if d.text.contains("(* never closed") {
+            continue; // (worlds with an unterminated comment hold no other comment)
+        }
+        let extra = *rng.pick(&["Zähler", "Größe µ °C", "£ € ¥", "naïve façade"]);
+        match rng.below(3) {
+            0 => d.text = format!("(* {extra} *)\n{}", d.text),
+            1 => {
+                if let Some(p) = d.text.find('\n') {
+                    d.text.insert_str(p + 1, &format!("(* {extra} *) "));
+                }
+            }
+            _ => {}
+        }
+    }
+}
+
+/// Gives every file of a variant a stored encoding of its own (the set is mixed).
+pub fn mix_encodings(rng: &mut Rng, world: &World, v: &mut Variant) {
+    let allow_1252 = v.files.iter().all(|f| file_text(world, f).chars().all(|c| c.is_ascii() || encoding_rs::WINDOWS_1252.encode(&c.to_string()).2 == false));
+    assign_encodings(rng, world, &mut v.files, allow_1252);
+}
+
 fn canonical_variant(world: &World, role: &str) -> Variant {
     Variant {
         role: role.to_string(),
@@ -177,6 +204,13 @@ pub fn gen_c06(rng: &mut Rng, thorough: bool) -> WorldTrace {
         let kind = *rng.pick(pool::FAULT_KINDS);
         pool::gen_faulty(rng, size, kind)
     };
+    // a fifth of the worlds: multi-byte characters in comments, and every variant stores its files
+    // in encodings of its own choice (a mixed set)
+    let mixed = !world.decls.iter().any(|d| d.text.contains("(* never closed")) && rng.chance(1, 5);
+    let mut world = world;
+    if mixed {
+        decorate_lightly(rng, &mut world);
+    }
     let nvar = if thorough { 24 } else { 10 };
     let mut variants = vec![canonical_variant(&world, "canonical")];
     if let Some(f) = &world.fault {
@@ -228,10 +262,41 @@ pub fn gen_c06(rng: &mut Rng, thorough: bool) -> WorldTrace {
             variants.push(v);
         } else {
             let mut v = random_variant(rng, &world, "variant", 3);
+            if mixed && v.entry != Entry::ApiText {
+                mix_encodings(rng, &world, &mut v);
+            }
             if rng.chance(1, 8) && matches!(v.entry, Entry::Check) {
                 add_padding_files(rng, &mut v);
             }
             variants.push(v);
+        }
+    }
+    // "the particular run": a run may come after an earlier run on the same machine. For a quarter of
+    // the faulty worlds one variant is preceded by a run on the *repaired* set under the very same
+    // paths with the very same file sizes (every declaration of the fault replaced by a comment of
+    // its length) - whatever that run leaves behind (the temporary directory survives within a
+    // world) must not change the verdict of the run that follows.
+    if let Some(f) = &world.fault {
+        if rng.chance(1, 4) && !world.decls.iter().any(|d| d.text.contains("(* never closed")) {
+            let candidates: Vec<usize> = variants.iter().enumerate().filter(|(_, v)| v.role == "variant" && v.entry == Entry::Check && v.files.iter().all(|x| x.raw.is_none())).map(|(i, _)| i).collect();
+            if !candidates.is_empty() {
+                let at = *rng.pick(&candidates);
+                let mut repaired = variants[at].clone();
+                repaired.role = "samesize_repair".into();
+                for file in repaired.files.iter_mut() {
+                    let mut text = String::new();
+                    for d in &file.decls {
+                        let t = &world.decls[*d].text;
+                        if f.involved.contains(d) && t.len() >= 6 && t.is_ascii() {
+                            text.push_str(&format!("(*{}*)\n", ".".repeat(t.len() - 5)));
+                        } else {
+                            text.push_str(t);
+                        }
+                    }
+                    file.raw = Some(crate::world::encode(&text, file.enc));
+                }
+                variants.insert(at, repaired);
+            }
         }
     }
     WorldTrace { prop: "C06".into(), world, variants, mode: String::new() }
@@ -255,7 +320,8 @@ fn oracle_c06(t: &WorldTrace, obs: &[Obs], stats: &mut Stats) -> Vec<Violation> 
     let canon = &obs[0];
     let nofault_ok = t.variants.iter().zip(obs).find(|(v, _)| v.role == "nofault").map(|(_, o)| !o.failed());
     for (i, o) in obs.iter().enumerate().skip(1) {
-        if t.variants[i].role == "nofault" {
+        // (the reference run without the fault and the run on the repaired set are other sets)
+        if t.variants[i].role == "nofault" || t.variants[i].role == "samesize_repair" {
             continue;
         }
         if outcome_word(&o.outcome) != outcome_word(&canon.outcome) {
@@ -309,7 +375,7 @@ fn oracle_c06(t: &WorldTrace, obs: &[Obs], stats: &mut Stats) -> Vec<Violation> 
         let loc_reliable = matches!(loc, Some((d, _)) if involved.contains(&d));
         let multi = involved.len() > 1;
         for (i, o) in obs.iter().enumerate().skip(1) {
-            if t.variants[i].role == "nofault" {
+            if t.variants[i].role == "nofault" || t.variants[i].role == "samesize_repair" {
                 continue;
             }
             let m = mapped(&t.world, &t.variants[i], o);
@@ -855,7 +921,8 @@ fn decorate(rng: &mut Rng, world: &mut World, repertoire_1252: bool, allow_big: 
                 // (only for well-formed storage: rendering thousands of lexical errors of a corrupted
                 // large file is a matter of running time, which C14 does not speak about)
                 if allow_big && rng.chance(1, 8) {
-                    let kb = rng.range(1, 70);
+                    // (rarely more than half a MiB of text, i.e. more than a MiB as UTF-16)
+                    let kb = if rng.chance(1, 12) { rng.range(520, 700) } else { rng.range(1, 70) };
                     // the padding itself is ASCII half of the time, so that the first non-ASCII
                     // byte of the file lies beyond any sniffing window
                     let line = if rng.chance(1, 2) { format!("(* {} *)\n", "padding ".repeat(12)) } else { format!("(* {extra} {} *)\n", "padding ".repeat(12)) };
@@ -949,6 +1016,15 @@ pub fn gen_c14(rng: &mut Rng, thorough: bool, run_index: u64) -> WorldTrace {
     let allow_1252 = rng.chance(1, 2);
     let twins = rng.chance(3, 5);
     decorate(rng, &mut world, allow_1252, twins);
+    let twin_entry = *rng.pick(&[Entry::Check, Entry::Check, Entry::ApiPush, Entry::Tokenize, Entry::Echo, Entry::LspOpenOne]);
+    if twins && twin_entry == Entry::LspOpenOne && rng.chance(1, 2) && !world.decls.is_empty() {
+        // one declaration sits behind more than half a MiB of comments (more than a MiB as UTF-16)
+        let i = rng.below(world.decls.len());
+        if !world.decls[i].text.contains("(* never closed") {
+            let line = format!("(* {} *)\n", "padding ".repeat(12));
+            world.decls[i].text = format!("{}{}", line.repeat(rng.range(520, 700) * 1024 / line.len()), world.decls[i].text);
+        }
+    }
     let order = rng.perm(world.decls.len());
     let k = rng.range(1, 3.min(world.decls.len().max(1)));
     let files = partition(rng, &order, k, Enc::Utf8);
@@ -958,7 +1034,9 @@ pub fn gen_c14(rng: &mut Rng, thorough: bool, run_index: u64) -> WorldTrace {
         let args = present(rng, &files);
         let dir_seed = rng.next();
         let hash_seed = rng.next();
-        let entry = *rng.pick(&[Entry::Check, Entry::Check, Entry::ApiPush, Entry::Tokenize, Entry::Echo]);
+        let entry = twin_entry;
+        // (the language server announces the directory itself as its folder)
+        let args = if entry == Entry::LspOpenOne { vec!["ws".to_string()] } else { args };
         for role in ["twin", "twin", "twin"] {
             let mut f = files.clone();
             assign_encodings(rng, &world, &mut f, allow_1252);
@@ -1255,6 +1333,33 @@ pub fn gen_c03(rng: &mut Rng, thorough: bool) -> WorldTrace {
         }
         variants.push(v);
     }
+    // An earlier run on the same machine: the accompanying files alone are checked first (whatever
+    // that run leaves in the temporary directory is there for the next one), then the same files
+    // plus the faulty file plus a byte-identical copy of it under another name. Two identical
+    // faulty files are as much a failing set as one.
+    if rng.chance(1, 5) {
+        let candidates: Vec<usize> = variants.iter().enumerate().filter(|(_, v)| v.role == "company" && v.entry == Entry::Check && v.files.len() >= 2 && v.files.iter().any(|f| f.name == "faulty.st") && v.files.iter().all(|f| f.raw.is_none())).map(|(i, _)| i).collect();
+        if !candidates.is_empty() {
+            let base = variants[*rng.pick(&candidates)].clone();
+            let mut pre = base.clone();
+            pre.role = "precheck".into();
+            pre.files.retain(|f| f.name != "faulty.st");
+            pre.args.retain(|a| a != "ws/faulty.st");
+            let mut dup = base.clone();
+            dup.role = "company_dup".into();
+            let mut copy = dup.files.iter().find(|f| f.name == "faulty.st").unwrap().clone();
+            copy.name = "faulty_copy.st".into();
+            dup.files.push(copy);
+            if dup.args.iter().any(|a| a == "ws/faulty.st") {
+                let pos = rng.below(dup.args.len() + 1);
+                dup.args.insert(pos, "ws/faulty_copy.st".into());
+            }
+            if !pre.args.is_empty() {
+                variants.push(pre);
+                variants.push(dup);
+            }
+        }
+    }
     WorldTrace { prop: "C03".into(), world, variants, mode: if name_reuse { "name_reuse".into() } else if clash_world { "clash".into() } else { "plain".into() } }
 }
 
@@ -1278,7 +1383,7 @@ fn oracle_c03(t: &WorldTrace, obs: &[Obs], stats: &mut Stats) -> Vec<Violation> 
     let alone_mapped: Vec<(String, Option<(usize, usize)>)> = mapped(&t.world, &t.variants[0], alone).into_iter().filter(|(c, _)| !CURABLE.contains(&c.as_str())).collect();
     let involved = t.world.fault.as_ref().map(|f| f.involved.clone()).unwrap_or_default();
     for (i, (v, o)) in t.variants.iter().zip(obs).enumerate() {
-        if v.role != "company" && !(clash && v.role == "alone") {
+        if v.role != "company" && v.role != "company_dup" && !(clash && v.role == "alone") {
             continue;
         }
         if matches!(o.outcome, Outcome::Panic(_)) {
@@ -1301,7 +1406,8 @@ fn oracle_c03(t: &WorldTrace, obs: &[Obs], stats: &mut Stats) -> Vec<Violation> 
             continue;
         }
         // valid company without name clash: every non-curable code of the alone-run is reported again at the same place
-        if company_valid && t.mode == "plain" && !clash {
+        // (with a second copy of the faulty file the duplicated names may be what is reported)
+        if company_valid && t.mode == "plain" && !clash && v.role == "company" {
             let m = mapped(&t.world, v, o);
             for (code, loc) in &alone_mapped {
                 stats.count("c03.code_relocation_checks");
@@ -1506,7 +1612,7 @@ fn drop_decl(t: &WorldTrace, idx: usize) -> Option<WorldTrace> {
 
 /// Every file of the variant is named by an argument or lies in a named directory.
 pub fn covers_all_files(v: &Variant) -> bool {
-    if matches!(v.entry, Entry::ApiText | Entry::ApiPush | Entry::LspTokens) {
+    if matches!(v.entry, Entry::ApiText | Entry::ApiPush | Entry::LspTokens | Entry::LspOpenOne) {
         return true;
     }
     if v.role == "free" {
